@@ -4,12 +4,18 @@ import binascii, fcntl, hashlib, json, os, random, re, subprocess, sys, time
 ROOT = os.path.dirname(os.path.dirname(os.path.abspath(__file__)))
 REPO = "/repo"
 CACHE = os.path.join(ROOT, ".cache")
-WORK = os.path.join(CACHE, "work")
+# VERIF_ALT_REPO=<dir>: development aid for trying the checks on a scratch copy of the repository (seeded changes)
+# without touching /repo: the harness crate is copied with its path dependency rewritten, everything else is the
+# same.  Registered commands never set it; evidence written in this mode is marked and must not be committed.
+ALT_REPO = os.environ.get("VERIF_ALT_REPO")
+WORK = os.path.join(CACHE, "work-alt" if ALT_REPO else "work")
 COQ = os.path.join(ROOT, "coq")
 DRIVER = os.path.join(ROOT, "driver")
 HARNESS_DIR = os.path.join(ROOT, "harness")
-TARGET = os.path.join(CACHE, "target")
+TARGET = os.path.join(CACHE, "target-alt" if ALT_REPO else "target")
 HARNESS = os.path.join(TARGET, "release", "harness")
+if ALT_REPO:
+    REPO = ALT_REPO
 MODELDRV = os.path.join(CACHE, "modeldrv")
 RUSTFLAGS = "--cfg deltio_verif --cfg tokio_unstable"
 
@@ -91,7 +97,21 @@ def build_coq():
 
 def build_harness():
     """Rebuilds the harness (and deltio from /repo's working tree, hooks on)."""
-    with Lock("cargo"):
+    with Lock("cargo-alt" if ALT_REPO else "cargo"):
+        if ALT_REPO:
+            alt = os.path.join(CACHE, "harness-alt")
+            sh("mkdir -p %s && rsync -a --delete --exclude target --exclude Cargo.toml %s/ %s/"
+               % (alt, os.path.join(ROOT, "harness"), alt))
+            mf = os.path.join(alt, "Cargo.toml")
+            want = open(os.path.join(ROOT, "harness", "Cargo.toml")).read().replace('path = "/repo"', 'path = "%s"' % ALT_REPO)
+            if not os.path.exists(mf) or open(mf).read() != want:
+                open(mf, "w").write(want)
+            return _cargo_build(alt)
+        return _cargo_build(HARNESS_DIR)
+
+
+def _cargo_build(HARNESS_DIR):
+    if True:
         lockfile = os.path.join(HARNESS_DIR, "Cargo.lock")
         if not os.path.exists(lockfile):
             sh(["cp", os.path.join(REPO, "Cargo.lock"), lockfile])
